@@ -53,7 +53,12 @@ class C09(Check):
             "many-thread cases (9, 12, 16, 24, 32 threads, more than the cores, piling up on the sink mutex), "
             "`same` cases (all threads on ONE logger type and severity, one-expression statements with nine streamed items, up to "
             "8000 (quick) / 20000 (thorough) records per thread), corpus; a batch of each kind also on a ThreadSanitizer build (larger in the thorough tier). "
-            "In every case each record's content (thread, seq, length, checksum, payload) is compared with the expected bytes. A case is non-trivial when at least two threads log "
+            "API-surface cases (the _mt sink inside sink::sequence<> alone / twice / over both streams, records with tag, severity and "
+            "thread-id attributes behind and_filter/not_filter/severity_filter with filtered-out and empty statements in between, sink "
+            "objects called directly, eight statement forms incl. callable items, logger::log()/will_log(), smart_stream::sstr(), "
+            "logging from a destructor during unwinding and from a catch handler, threads created/joined during the run, a forked "
+            "child in which the first calls race on the static initialisations, 20000-70000 byte records, NUL / >=0x80 / "
+            "metacharacter bytes, non-default stream flags). In every case each record's content (thread, seq, length, checksum, payload) is compared with the expected bytes. A case is non-trivial when at least two threads log "
             "at least one record each; distinct = distinct case line")
     modelled_note = ("modelled, not verified: std::mutex/lock_guard semantics (mutual exclusion, scope-exit unlock), one xsputn call per "
                      "inserted string, thread-safe function-local statics, privacy of the per-statement stringstream; real schedules are "
@@ -85,7 +90,7 @@ class C09(Check):
         # (i) small grid, observed order attached
         for rep in range(1 if quick else 12):
             for sink in sinks:
-                for n in (2, 3, 5, 8):
+                for n in ((2, 5, 8) if quick else (2, 3, 5, 8)):
                     for dist in "zsm":
                         for mode in "nyd":
                             counts = [rng.randint(1, 6) for _ in range(n)]
@@ -95,7 +100,7 @@ class C09(Check):
             for sink in sinks:
                 for n in (2, 4, 8):
                     for dist in "mlx":
-                        for mode in "ny":
+                        for mode in (rng.choice("ny") if quick else "ny"):
                             hi = 150 if quick else rng.choice([200, 600, 2000 if dist == "m" else 800])
                             counts = [rng.randint(hi // 3, hi) for _ in range(n)]
                             yield "%s %s %s %s %d" % (sink, csv(counts), nlmix(rng, dist), mode, rng.randint(0, 99999)), "contention"
@@ -128,6 +133,30 @@ class C09(Check):
                 for n in (9, 16, 32):
                     yield "%s %s m y %d same tsan" % (sink, csv([rng.randint(40, 100)] * n), rng.randint(0, 99999)), "tsan-many-threads"
                 yield "%s %s s n %d tsan" % (sink, csv([60] * 24), rng.randint(0, 99999)), "tsan-many-threads"
+        # (iv-d) API surface: the ways a record can reach an _mt sink and the contexts it can be logged from
+        #   p1 _mt sink inside sink::sequence<>   p2 sequence<X_mt, X_mt> (every record exactly twice)   p3 sequence over
+        #   both streams (both trapped; cerr untied, see the driver)   p4 record with tag/severity/thread-id attributes
+        #   behind and_filter<severity_filter, not_filter<..>> with filtered-out statements in between   p5 sink objects
+        #   owned by the threads and called directly;  wave = threads created and joined by other threads during the
+        #   run;  fresh = forked child where the first calls race on logger::instance() and the static mutex;
+        #   h/H = payloads of 20000..70000 bytes
+        for rep in range(1 if quick else 5):
+            for sink in sinks:
+                for prof in ("p1", "p2", "p3", "p4", "p5"):
+                    n = rng.choice([3, 4, 6, 9])
+                    yield "%s %s %s %s %d %s" % (sink, csv([rng.randint(40, 160) for _ in range(n)]), rng.choice("smSM"), rng.choice("nyd"),
+                                                 rng.randint(0, 99999), prof), "api-profile"
+                    n = rng.choice([2, 5, 12])
+                    yield "%s %s %s %s %d %s %s" % (sink, csv([rng.randint(20, 80) for _ in range(n)]), rng.choice("smlL"), rng.choice("ny"),
+                                                    rng.randint(0, 99999), prof, rng.choice(["wave", "fresh", "wave fresh"])), "api-profile"
+                yield "%s %s %s n %d wave" % (sink, csv([rng.randint(50, 200) for _ in range(7)]), rng.choice("sM"), rng.randint(0, 99999)), "api-threads"
+                yield "%s %s s n %d same wave" % (sink, csv([1500] * 6), rng.randint(0, 99999)), "api-threads"
+                yield "%s %s s d %d ord fresh" % (sink, csv([rng.randint(2, 8) for _ in range(4)]), rng.randint(0, 99999)), "api-threads"
+                yield "%s %s m n %d same fresh" % (sink, csv([300] * 8), rng.randint(0, 99999)), "api-threads"
+                yield "%s %s %s %s %d" % (sink, csv([rng.randint(3, 8) for _ in range(4)]), rng.choice("hH"), rng.choice("ny"), rng.randint(0, 99999)), "api-huge-record"
+                for prof in ("p2", "p3", "p4", "p5"):
+                    yield "%s %s %s y %d %s %s tsan" % (sink, csv([rng.randint(20, 60) for _ in range(4)]), rng.choice("sM"), rng.randint(0, 99999), prof,
+                                                        rng.choice(["wave", "fresh"])), "tsan-api"
         # (iv-c) payloads containing line terminators, every length class, `same` and mixed loggers, plain and TSan build:
         #        a record must stay one contiguous run whatever bytes it contains
         for rep in range(1 if quick else 6):
@@ -188,7 +217,7 @@ class C09(Check):
     def signature(self, case, mobs, iobs):
         w = case.split()
         cs = [int(c) for c in w[1].split(",")]
-        return (w[0], len(cs), w[2], w[3], min(max(cs) // 50, 4), "tsan" in w[5:], "same" in w[5:], iobs.split(" ", 1)[0])
+        return (w[0], len(cs), w[2], w[3], min(max(cs) // 50, 4), " ".join(sorted(f for f in w[5:] if f != "ord")), iobs.split(" ", 1)[0])
 
     def shrink(self, case):
         w = case.split()
